@@ -211,7 +211,9 @@ macro_rules! impl_rank_small_sel {
                 {
                     let mut first = true;
                     for (i, word) in superblock.iter().copied().enumerate() {
-                        let ones_in_word = word.count_ones() as usize;
+                        // Backend bits beyond the length of the bit vector (stale
+                        // bits of the last word, spare words) are not ones of the vector
+                        let ones_in_word = (word.count_ones() as usize).min(num_ones - past_ones);
 
                         while past_ones + ones_in_word > next_quantum {
                             let in_word_index = word.select_in_word(next_quantum - past_ones);
